@@ -70,6 +70,7 @@ type Config struct {
 	OracleStride int  `json:"oracle_stride"`
 	MaxSteps   int    `json:"max_steps"`
 	Faulty     bool   `json:"faulty,omitempty"`
+	LazyDispose bool  `json:"lazy_dispose,omitempty"` // dispose of returned large-value references without loading them first
 	HipShift   uint   `json:"hip_shift,omitempty"` // lossy hash input for integer keys (collisions under the default digester)
 }
 
